@@ -11,14 +11,14 @@ Import ListNotations.
 (** ** what an inspect call can answer *)
 Inductive docker_answer :=
 | DNotFound                          (* 404: docker.ContainerNotFoundError *)
-| DError                             (* any other error: daemon unreachable, 5xx, undecodable body, timeout *)
+| DErr                             (* any other error: daemon unreachable, 5xx, undecodable body, timeout *)
 | DOk (status : option str).         (* inspect succeeded; [None]: no State in the answer *)
 
 Inductive cstate := Waiting | Running | Terminated | NoState.     (* a pod's container status *)
-Inductive pod_answer := PFound (statuses : list cstate) | PNotFound | PError.
+Inductive pod_answer := PFound (statuses : list cstate) | PNotFound | PErr.
 Inductive cri_answer :=
 | CNotFound                          (* gRPC status NotFound *)
-| CError                             (* any other error *)
+| CErr                             (* any other error *)
 | CNil                               (* answer without a sandbox status *)
 | CReady                             (* sandbox state READY *)
 | CNotReady (pod : pod_answer).      (* sandbox state NOTREADY, then the pod lookup by the sandbox annotations *)
@@ -32,13 +32,13 @@ Definition cstate_alive (s : cstate) : bool := match s with Waiting | Running =>
 Definition should_cleanup (a : answer) : bool :=
   match a with
   | Docker DNotFound => true
-  | Docker DError => false
+  | Docker DErr => false
   | Docker (DOk (Some s)) => status_dead s
   | Docker (DOk None) => false
   | Cri CNotFound => true
   | Cri (CNotReady PNotFound) => true
   | Cri (CNotReady (PFound sts)) => negb (existsb cstate_alive sts)
-  | Cri (CNotReady PError) => false
+  | Cri (CNotReady PErr) => false
   | Cri _ => false
   end.
 
